@@ -33,6 +33,7 @@ from ..common import Report, pmap, harness_errors, rng, setup_repo, canon, seed
 PROP = 'C07'
 KF_MICRO = 'C07-subsecond-precision-lost'
 KF_NESTED = 'C07-checkpoint-in-nested-flow-runs-outer-upstream'
+KF_TAGOBJ = 'C07-user-dict-shaped-like-a-typed-value'
 
 
 def model(rep, t):
@@ -49,8 +50,15 @@ def model(rep, t):
                         invariants=['PickedUpIsComplete', 'NeverBadResult'], properties=['ResumeSkipsUpstream', 'DeleteRecomputes'])
     res = tlc.run_tlc('Checkpoint', cfg, allow_violation=False)
     rep.add_tlc(res, 'Checkpoint (file level) 4 runs: ResumeSkipsUpstream, DeleteRecomputes, NeverBadResult')
+    cfg = tlc.write_cfg(os.path.join(wd, 'ejtag.cfg'), constants={'OffsetAs': '"total"', 'KeepMicro': 'TRUE', 'WithTagObjects': 'TRUE'},
+                        invariants=['RoundTripUnlessTagObject', 'TagObjectComesBackTyped'])
+    res = tlc.run_tlc('Ejson', cfg, allow_violation=False)
+    rep.add_tlc(res, 'Ejson catalogue + user dicts shaped like typed values: everything but those round-trips; they come back as the typed value')
+    cfg = tlc.write_cfg(os.path.join(wd, 'ejtag2.cfg'), constants={'OffsetAs': '"total"', 'KeepMicro': 'TRUE', 'WithTagObjects': 'TRUE'}, invariants=['RoundTripAll'])
+    if not tlc.run_tlc('Ejson', cfg).violated:
+        raise tlc.MachineryError('non-vacuity: Ejson with WithTagObjects must refute RoundTripAll (the encoding is not injective)')
     for oa, km, inv, expect in (('total', 'TRUE', 'RoundTripAll', False), ('seconds', 'TRUE', 'RoundTripAll', True), ('total', 'FALSE', 'RoundTripAll', True)):
-        cfg = tlc.write_cfg(os.path.join(wd, 'ej%s%s.cfg' % (oa, km)), constants={'OffsetAs': '"%s"' % oa, 'KeepMicro': km}, invariants=[inv])
+        cfg = tlc.write_cfg(os.path.join(wd, 'ej%s%s.cfg' % (oa, km)), constants={'OffsetAs': '"%s"' % oa, 'KeepMicro': km, 'WithTagObjects': 'FALSE'}, invariants=[inv])
         res = tlc.run_tlc('Ejson', cfg)
         if bool(res.violated) != expect:
             raise tlc.MachineryError('Ejson.tla OffsetAs=%s KeepMicro=%s: expected violation=%s' % (oa, km, expect))
@@ -246,11 +254,23 @@ def cps(s):
 ZERO = dict(kind='null', y=0, m=0, d=0, h=0, mi=0, s=0, us=0, aware=False, off=0, txt=[])
 
 
+def is_tagobj(v):
+    return isinstance(v, dict) and len(v) == 1 and list(v)[0] in ('type{date}', 'type{time}', 'type{decimal}') and isinstance(list(v.values())[0], str)
+
+
 def project_value(v):
     """python value -> Ejson cell record (None for containers)"""
     z = dict(ZERO)
     if v is None:
         return z
+    if is_tagobj(v):
+        # a user dict shaped like a typed value: {"type{date}": "2020-01-02"} (Ejson.tla: kind tagobj-*)
+        tag, txt = list(v.items())[0]
+        if tag == 'type{date}':
+            return dict(z, kind='tagobj-date', y=int(txt[0:4]), m=int(txt[5:7]), d=int(txt[8:10]))
+        if tag == 'type{time}':
+            return dict(z, kind='tagobj-time', h=int(txt[0:2]), mi=int(txt[3:5]), s=int(txt[6:8]))
+        return dict(z, kind='tagobj-dec', txt=cps(txt))
     if isinstance(v, bool):
         return dict(z, kind='bool', txt=cps(str(v)))
     if isinstance(v, int):
@@ -290,7 +310,9 @@ MISMATCH = object()      # the three views of a cell do not even have the same s
 
 def leaves(v, w, o, path=''):
     """zip the first-run value, the written json and the resumed value down to typed leaves"""
-    if isinstance(v, dict) and not (isinstance(w, dict) and len(w) == 1 and list(w)[0].startswith('type{')):
+    if is_tagobj(v):
+        yield path, v, w, o
+    elif isinstance(v, dict) and not (isinstance(w, dict) and len(w) == 1 and list(w)[0].startswith('type{')):
         if not isinstance(w, dict) or not isinstance(o, dict) or set(v) != set(w) or set(v) != set(o):
             yield path, MISMATCH, MISMATCH, MISMATCH
             return
@@ -334,6 +356,9 @@ def catalogue_rows():
                      t=datetime.time(1, 2, 3, 500000), s='micro', dur=td(hours=5), arr=[D('1')], obj=dict(x=1)))
     # sets (the encoding claims them: type{set}), at top level of an `any` field and nested
     rows.append(dict(i=104, dt=None, dec=None, d=None, t=None, s='sets', dur=None, arr=[{1, 2}, set()], obj=dict(tags={3, 1, 2}), anyv={7, -1}))
+    # user dicts that happen to look like the encoding of a typed value (inside an object cell, an array cell, an any cell)
+    rows.append(dict(i=105, dt=None, dec=None, d=None, t=None, s='tag objects', dur=None, arr=[{'type{decimal}': '1.5'}, 1],
+                     obj=dict(when={'type{date}': '2020-01-02'}, at={'type{time}': '01:02:03'}), anyv={'type{date}': '1999-12-31'}))
     for x in rows:
         x.setdefault('anyv', None)
     return rows
@@ -413,7 +438,7 @@ def value_cells(item):
 def validate_cells(rep, cells):
     wd = tlc.workdir('c07t')
     tf = tlc.write_ndjson(os.path.join(wd, 'cells.ndjson'), [dict(inv=c['inv'], wr=c['wr'], outv=c['outv']) for c in cells])
-    cfg = tlc.write_cfg(os.path.join(wd, 'tr.cfg'), spec='TraceSpec', constants={'OffsetAs': '"total"', 'KeepMicro': 'TRUE'}, constraints=['Verdict'])
+    cfg = tlc.write_cfg(os.path.join(wd, 'tr.cfg'), spec='TraceSpec', constants={'OffsetAs': '"total"', 'KeepMicro': 'TRUE', 'WithTagObjects': 'TRUE'}, constraints=['Verdict'])
     res = tlc.run_tlc('EjsonTrace', cfg, workers=1, env={'TRACE_FILE': tf}, allow_violation=False, timeout=3000)
     rep.add_tlc(res, 'EjsonTrace: %d typed cells through a real checkpoint' % len(cells))
     out = {v[0]: dict(same=v[1], same_dev=v[2], enc=v[3], dec=v[4]) for v in res.tuples('VERDICT')}
@@ -498,7 +523,9 @@ def run():
         rep.count(1, traces=1)
         rep.mark_distinct(dict(i=c['inv'], w=c['wr']))
         if not v['same']:
-            if v['same_dev'] and c['inv']['us'] != 0 and c['inv']['kind'] in ('dt', 'time'):
+            if v['same_dev'] and c['inv']['kind'].startswith('tagobj'):
+                rep.known(KF_TAGOBJ, 'a user dict shaped like the encoding of a typed value comes back as that typed value', c)
+            elif v['same_dev'] and c['inv']['us'] != 0 and c['inv']['kind'] in ('dt', 'time'):
                 rep.known(KF_MICRO, 'sub-second part of a time/datetime lost on resume', c)
             else:
                 rep.violation(c, dict(cell=c['where'], value_in=c['inv'], written=c['wr'], value_out=c['outv']), category='values/%s' % c['inv']['kind'])
